@@ -77,7 +77,9 @@ func (t tagBlockInformation) Super() (*Value, error) {
 
 	superCtx := NewChildExecutionContext(t.ctx)
 	superCtx.Private["block"] = tagBlockInformation{
-		ctx:      t.ctx,
+		// the definition rendered now is the one whose surroundings (escaping
+		// mode, variables it sets) count when it asks for block.Super in turn
+		ctx:      superCtx,
 		wrappers: t.wrappers[0 : lenWrappers-1],
 	}
 
